@@ -15,7 +15,7 @@ dst = os.path.join(VERIF, "seeded", sid)
 os.makedirs(dst, exist_ok=True)
 shutil.copy(os.path.join(seed, "patch.diff"), os.path.join(dst, "patch.diff"))
 demo = open(os.path.join(seed, "demo.py")).read()
-demo = re.sub(r"/tmp/wt/c\d\d", "/repo", demo)
+demo = re.sub(r"/tmp/wt/[a-z0-9]+", "/repo", demo)
 open(os.path.join(dst, "demo.py"), "w").write(demo)
 notes = open(os.path.join(seed, "notes.md")).read() if os.path.exists(os.path.join(seed, "notes.md")) else ""
 open(os.path.join(dst, "notes.md"), "w").write(notes)
